@@ -424,7 +424,10 @@ def compile_many(wd, jobs):
     def comp(j):
         compiler, std, tag, src = j
         obj = src[:-3] + f".{tag}.o"
-        rc, out = cxx(src, obj, compiler=compiler, std=std, extra=["-c"] + no_uio(compiler))
+        # the additional g++ standards of the quick tier are built without ASan/UBSan (g++ c++14 has them; UB verdicts come
+        # from the "exact" builds only): it halves their compile time
+        rc, out = cxx(src, obj, compiler=compiler, std=std, san=("_extra_" not in os.path.basename(src) or compiler != "g++"),
+                      extra=["-c"] + no_uio(compiler))
         return tag, src, obj, rc, out
     res = {tag: ([], None) for (_, _, tag, _) in jobs}
     for tag, src, obj, rc, out in pmap(comp, flat):
@@ -600,7 +603,14 @@ def model_types(drv, combos):
     return {key(c): kv(a) for c, a in zip(combos, ans)}
 
 
-def write_ops_harness(wd, combos, mt, fam, unit, header):
+def types_only_by_design(c, role):
+    """In the "extra" configurations the combinations with a scalar of a different type, and the unitless-unit twins, are
+    compiled for their result type only (decltype: for the `auto`-returning scalar operators that instantiates the operator
+    body, so acceptance is still observed); they are evaluated in the "main" configurations."""
+    return role == "extra" and (c["T"] != c["R"] or bool(c["ul"]))
+
+
+def write_ops_harness(wd, combos, mt, fam, unit, header, role="main"):
     common = H.OPS_COMMON.replace("@UNIT_INCLUDES@", unit_header_includes([header])).replace("@UNIT@", "au::" + unit)
     files, names, sizes = [], [], []
     for r in REPS:
@@ -614,14 +624,16 @@ def write_ops_harness(wd, combos, mt, fam, unit, header):
             bt = CT[r] if mode == 0 else CT[t]
             uq = "U0" if c["ul"] else "U"
             args = f'"{c["op"]}", {f}, {CT[r]}, {CT[t]}, {mode}, {uq}, {c["ul"]}, "{r}", "{t}", {bt}'
-            if m[fam] == "1":
+            if m[fam] == "1" and types_only_by_design(c, role):
+                rows.append(f"    E_TYPES({args}),")
+            elif m[fam] == "1":
                 small = is_int(r) and BITS[r] == 8 and (mode == 0 or (is_int(t) and BITS[t] == 8))
                 rows.append(f"    {'E_SWEEP' if small else 'E_FULL'}({args}),")
             elif m["ty"] != "-" and c["op"] in ("mod", "pos", "neg") and m["rawok"] == "1":
                 rows.append(f"    E_TYPES({args}),")
             else:
                 rows.append(f'    E_NONE("{c["op"]}", "{r}", "{t}", {c["ul"]}),')
-        p = os.path.join(wd, f"ops_{fam}_{r}.cc")
+        p = os.path.join(wd, f"ops_{fam}_{role}_{r}.cc")
         open(p, "w").write(common + f"extern const Entry table_{r}[] = {{\n" + "\n".join(rows) + "\n};\n"
                            + f"extern const int table_{r}_n = {len(rows)};\n")
         files.append(p)
@@ -630,7 +642,7 @@ def write_ops_harness(wd, combos, mt, fam, unit, header):
     main = common + H.OPS_MAIN.replace("@CPU_LIMIT@", str(CPU_LIMIT))
     main = main.replace("@EXTERNS@", "\n".join(f"extern const Entry {n}[];" for n in names))
     main = main.replace("@TABLES@", ", ".join(names)).replace("@SIZES@", ", ".join(sizes))
-    p = os.path.join(wd, f"ops_{fam}_main.cc")
+    p = os.path.join(wd, f"ops_{fam}_{role}_main.cc")
     open(p, "w").write(main)
     files.append(p)
     return files
@@ -712,8 +724,9 @@ def explore_ops(wd, drv, configs, rng, tier, seed, stats, viol, samples, distinc
     msweep3 = {k: kv(a) for k, a in zip(sw, sans)}
     sweep_raw = dict(zip(sw, sans))
 
-    famfiles = {fam: write_ops_harness(wd, combos, mt, fam, unit, header) for fam in sorted({family(c[0]) for c in configs})}
-    built = compile_many(wd, [(compiler, std, tag, famfiles[family(compiler)]) for (compiler, std, tag, _role) in configs])
+    famfiles = {(fam, role): write_ops_harness(wd, combos, mt, fam, unit, header, role)
+                for (fam, role) in sorted({(family(c[0]), c[3]) for c in configs})}
+    built = compile_many(wd, [(compiler, std, tag, famfiles[(family(compiler), role)]) for (compiler, std, tag, role) in configs])
     for (compiler, std, tag, role) in configs:
         fam = family(compiler)
         cfg = f"{compiler} -std={std}"
@@ -736,7 +749,7 @@ def explore_ops(wd, drv, configs, rng, tier, seed, stats, viol, samples, distinc
             lines.append(f"C {r0}")
             meta.append(("C", {"op": "constexpr", "R": r0, "T": r0, "ul": 0}, None, None))
         for c in combos:
-            if mt[key(c)][fam] != "1":
+            if mt[key(c)][fam] != "1" or types_only_by_design(c, role):
                 continue
             if (c["op"], c["R"], c["T"]) in msweep3:
                 lines.append(f"S {c['op']} {c['R']} {c['T']} {c['ul']}")
@@ -761,15 +774,15 @@ def explore_ops(wd, drv, configs, rng, tier, seed, stats, viol, samples, distinc
                 stats["traps"] += 1
                 ta, tb2 = (a, b) if kind == "P" else (r.get("a"), r.get("b"))
                 why = "CPU-time watchdog" if r.get("sig") == "24" else f"signal {r.get('sig')}"
-                viol.append({"what": f"`{CPP_EXPR.get(c['op'], c['op'])}` on Quantity<{unit}, {c['R']}> (scalar {c['T']}) trapped ({why}) at "
+                viol.append({"what": f"`{CPP_EXPR.get(c['op'], c['op'])}` on Quantity<{'UnitProductT<>' if c['ul'] else unit}, {c['R']}> (scalar {c['T']}) trapped ({why}) at "
                                      f"a={ta} b={tb2} where the built-in operator is defined", "class": f"trap-{c['op']}-{c['R']}",
                              "rec": dict(base, kind="trap", a=ta, b=tb2, sig=r.get("sig"), line=l)})
                 continue
             if kind == "C":
                 stats["op_constexpr_checks"] += int(r.get("n", 0))
                 if r.get("bad") != "0":
-                    viol.append({"what": f"inside constant expressions an operator of Quantity<{unit}, {c['R']}> (operands 7 and 3) differs from "
-                                         f"the built-in operator in value or type ({r.get('bad')} of {r.get('n')} expressions)",
+                    viol.append({"what": f"inside constant expressions an operator of Quantity<{'UnitProductT<>' if c['ul'] else unit}, {c['R']}> (operands 7 and 3) differs from "
+                                         f"the built-in operator in value or type ({r.get('bad')} of {r.get('n')} expressions) [{cfg}]",
                                  "class": f"constexpr-{c['R']}", "rec": dict(base, kind="constexpr", a=7, b=3, impl=ans)})
                 continue
             if kind == "T":
@@ -783,6 +796,8 @@ def explore_ops(wd, drv, configs, rng, tier, seed, stats, viol, samples, distinc
                 if not raw_ok:
                     stats["op_raw_illformed"] += 1
                 comp = r.get("compiled")
+                if comp == "2" and m[fam] == "1" and types_only_by_design(c, role):
+                    comp = "1"
                 # correspondence with the model (verdict for this compiler family, both result types)
                 exp = "1" if m[fam] == "1" else ("2" if (m["ty"] != "-" and c["op"] in ("mod", "pos", "neg") and raw_ok) else "0")
                 mism = comp != exp
@@ -797,7 +812,7 @@ def explore_ops(wd, drv, configs, rng, tier, seed, stats, viol, samples, distinc
                 if raw_ok and not gated:
                     if comp != "1":
                         stats["f4_cases"] += 1
-                        viol.append({"what": f"`{CPP_EXPR[c['op']]}` on Quantity<{unit}, {c['R']}> is rejected by {compiler} although the "
+                        viol.append({"what": f"`{CPP_EXPR[c['op']]}` on Quantity<{'UnitProductT<>' if c['ul'] else unit}, {c['R']}> is rejected by {compiler} although the "
                                              f"built-in operator on {c['R']} is accepted", "class": f"accept-{c['op']}-{c['R']}",
                                      "rec": dict(base, kind="accept", impl=ans, narrowing_explains=in_f4(c))})
                     else:
@@ -805,7 +820,7 @@ def explore_ops(wd, drv, configs, rng, tier, seed, stats, viol, samples, distinc
                         unit_ok = r.get("unit") == want_unit or r.get("rty") == "bool"
                         if r.get("qty") != r.get("rty") or not unit_ok:
                             stats["f4_cases"] += 1
-                            viol.append({"what": f"result type of `{CPP_EXPR[c['op']]}` on Quantity<{unit}, {c['R']}> is "
+                            viol.append({"what": f"result type of `{CPP_EXPR[c['op']]}` on Quantity<{'UnitProductT<>' if c['ul'] else unit}, {c['R']}> is "
                                                  f"Quantity<{r.get('unit')}, {r.get('qty')}>, the built-in operator gives {r.get('rty')}",
                                          "class": f"type-{c['op']}-{c['R']}",
                                          "rec": dict(base, kind="type", impl=ans, narrowing_explains=in_f4(c))})
@@ -832,7 +847,7 @@ def explore_ops(wd, drv, configs, rng, tier, seed, stats, viol, samples, distinc
                 if int(r["mism"]):
                     a0, b0 = (int(x) for x in r["first"].split(","))
                     stats["f4_cases"] += 1
-                    viol.append({"what": f"`{CPP_EXPR[c['op']]}` on Quantity<{unit}, {c['R']}> differs from the built-in operator at "
+                    viol.append({"what": f"`{CPP_EXPR[c['op']]}` on Quantity<{'UnitProductT<>' if c['ul'] else unit}, {c['R']}> differs from the built-in operator at "
                                          f"a={a0} b={b0} ({r['mism']} of {r['defined']} defined pairs)",
                                  "class": f"value-{c['op']}-{c['R']}",
                                  "rec": dict(base, kind="value", a=a0, b=b0, count=int(r["mism"]),
@@ -840,7 +855,9 @@ def explore_ops(wd, drv, configs, rng, tier, seed, stats, viol, samples, distinc
                 if int(r["ub"]) and not exact:
                     stats["ub_reports_nonexact_builds"] += int(r["ub"])
                 if int(r["ub"]) and exact:
-                    viol.append({"what": f"sanitizer report while sweeping `{CPP_EXPR[c['op']]}` on inputs where the built-in operator is defined",
+                    viol.append({"what": f"undefined behaviour (exact-count UBSan, {r['ub']} executions) while sweeping all 8-bit operand pairs of "
+                                         f"`{CPP_EXPR[c['op']]}` on Quantity<{unit}, {c['R']}> (scalar {c['T']}), only on pairs where the built-in "
+                                         f"operator is defined [{cfg}]",
                                  "class": f"ub-{c['op']}-{c['R']}", "rec": dict(base, kind="ub", impl=ans)})
                 continue
             # single point
@@ -884,14 +901,15 @@ def explore_ops(wd, drv, configs, rng, tier, seed, stats, viol, samples, distinc
             same = r["q"] == r["r"] or (is_nan_bits(tys.get("qty", ""), r["q"]) and is_nan_bits(tys.get("rty", ""), r["r"]))
             if not same:
                 stats["f4_cases"] += 1
-                viol.append({"what": f"`{CPP_EXPR[c['op']]}` on Quantity<{unit}, {c['R']}> gives {r['q']}, the built-in operator gives "
-                                     f"{r['r']} (a={fmt_val(c['R'], a)}, b={fmt_val(c['R'] if FUNCTOR[c['op']][1] == 0 else c['T'], b)})", "class": f"value-{c['op']}-{c['R']}",
+                viol.append({"what": f"`{CPP_EXPR[c['op']]}` on Quantity<{'UnitProductT<>' if c['ul'] else unit}, {c['R']}> gives {r['q']}, the built-in operator gives "
+                                     f"{r['r']} (a={fmt_val(c['R'], a)}, b={fmt_val(c['R'] if FUNCTOR[c['op']][1] == 0 else c['T'], b)}) [{cfg}]", "class": f"value-{c['op']}-{c['R']}",
                              "rec": dict(pbase, kind="value", q=r["q"], r=r["r"],
                                          narrowing_explains=narrowing_explains(c, a, b, r["q"], r["r"]))})
             if r["ub"] != "0" and not exact:
                 stats["ub_reports_nonexact_builds"] += int(r["ub"])
             if r["ub"] != "0" and exact:
-                viol.append({"what": f"undefined behaviour (exact-count UBSan) in `{CPP_EXPR[c['op']]}` where the built-in operator is defined",
+                viol.append({"what": f"undefined behaviour (exact-count UBSan) in `{CPP_EXPR[c['op']]}` on Quantity<{'UnitProductT<>' if c['ul'] else unit}, "
+                                     f"{c['R']}> (scalar {c['T']}) at a={fmt_val(c['R'], a)} b={b} where the built-in operator is defined [{cfg}]",
                              "class": f"ub-{c['op']}-{c['R']}", "rec": dict(pbase, kind="ub", impl=ans)})
         # negative probes: what the model says this compiler rejects must be rejected, for the modelled reason
         rej = [c for c in combos if mt[key(c)][fam] != "1"]
@@ -1090,10 +1108,32 @@ def pick_configs(tier, seed):
     return out
 
 
+def cleanup_stale_workdirs():
+    """Scratch directories of earlier runs are kept when something was reported; remove those whose process is gone and
+    that are older than half an hour (the most recent one stays available long enough for inspection)."""
+    from vlib import WORKROOT
+    for d in os.listdir(WORKROOT):
+        m = re.match(rf"^{PROP}\.run(\d+)$", d)
+        if not m:
+            continue
+        path = os.path.join(WORKROOT, d)
+        try:
+            os.kill(int(m.group(1)), 0)
+            alive = True
+        except OSError:
+            alive = False
+        try:
+            if not alive and time.time() - os.path.getmtime(path) > 1800:
+                shutil.rmtree(path, ignore_errors=True)
+        except OSError:
+            pass
+
+
 def main(tier, seed):
     t0 = time.time()
     # private scratch directory: vlib.workdir(PROP) is wiped by every start of this check, and two runs of it may overlap
     # (a concurrent run once removed the object files of a thorough run between compile and link)
+    cleanup_stale_workdirs()
     wd = workdir(f"{PROP}.run{os.getpid()}")
     rng = rng_for(PROP, seed)
     viol, samples, distinct = [], [], set()
@@ -1150,14 +1190,20 @@ def main(tier, seed):
     coverage = {
         "evaluations": total,
         "distinct_nontrivial": len(distinct) + stats.get("op_combos", 0) + nunits * len(REPS) * 2,
-        "rule": "case = one of: (class, unit, rep) layout row [Quantity and QuantityPoint, every library unit + seed-generated compound "
-                "units, 11 reps, per compiler configuration]; (operator, R, T, a, b) operator evaluation [13 same-type operators x 11 reps, "
-                "6 scalar operators x 11x11 rep pairs (+ s/q on a unitless unit); all 65536 operand pairs for 8-bit reps, otherwise points "
-                "at the model's guards (range of the common type +-1, zero divisor, lo/-1, promotion thresholds) + random; floats: special "
-                "values incl. NaN payloads, infinities, signed zeros, denormals + random]; (operator, R, T) result-type/acceptance check; "
-                "negative compile probe; (rep, x) round trip [special values, all values of 8/16-bit reps, random bit patterns, and all 2^32 "
-                "float patterns in the thorough tier]. distinct_nontrivial = distinct operator points + round-trip singles + operator "
-                "combinations + layout (class, unit, rep) triples",
+        "rule": "case = one of: (class, unit, rep) layout row [Quantity and QuantityPoint; every library unit, the unitless unit, one "
+                "generated unit of every kind (product, quotient, power, root, scaled, scaled by one, prefixed, inverse, quantity-equivalent "
+                "but differently typed, common unit) + random ones; 11 reps; sizeof/alignof/3 type traits and the object bytes after `T t;`, "
+                "`T{}`, `T()` and a constexpr `T{}`]; (operator, R, T, unit kind, a, b) operator evaluation [13 same-type operators x 11 reps and "
+                "6 scalar operators (q*s, s*q, q/s, s/q, *=, /=) x 11x11 rep pairs, each also on the unitless unit; ALL 65536 operand pairs for "
+                "8-bit reps; a DIRECTED grid identical in every run: every boundary of each rep (min, max, 2^7..2^63 and neighbours, 0, +-1, +-2, "
+                "zero divisor, lo/-1, operands whose result sits at the edge of the common type) and for floating reps +-0, +-inf, quiet and "
+                "signalling NaNs with payloads, smallest denormal, max, +-1, 1+ulp, as full pairs; plus seed-dependent random points]; the same "
+                "operators inside constant expressions; (operator, R, T) result-type/acceptance check; negative compile probe; (rep, x) round "
+                "trip in nine spellings (maker/unit slot, rep-explicit in<R>, coerce_in, data_in, unit symbol, equivalent unit type, const "
+                "copy) [special values, inside constant expressions, all values of 8/16-bit reps, random bit patterns; all 2^32 float patterns "
+                "in the thorough tier].  Every quick run builds all six g++/clang++ x C++14/17/20 combinations (two with the full grids, four "
+                "with all type checks, sweeps and a smaller directed grid).  distinct_nontrivial = distinct operator points + round-trip "
+                "singles + operator combinations + layout (class, unit, rep) triples",
         "samples": samples,
         "exhaustive": False,
         "distribution": stats,
